@@ -215,37 +215,82 @@ inline bool RunChild(const std::vector<json>& cases, size_t from, size_t to, con
 }
 } // namespace detail
 
+namespace detail {
+struct Running { pid_t pid; std::string path; std::vector<json> batch; };
+inline pid_t SpawnChild(const std::vector<json>& cases, const Handler& h, unsigned wd, size_t keepSamples, const std::string& path) {
+  pid_t pid = fork();
+  if (pid == 0) {
+    std::set_terminate(TerminateHandler);
+    Report r; r.keepSamples = keepSamples;
+    for (const auto& c : cases) { alarm(wd); ++r.cases; h(c, r); }
+    alarm(0);
+    json j = r.ToJson();
+    j["distinct_keys"] = json::array();
+    for (auto& k : r.distinct) j["distinct_keys"].push_back(k);
+    std::ofstream f(path); f << j.dump(); f.close();
+    _exit(0);
+  }
+  return pid;
+}
+inline std::string DescribeStatus(int st, unsigned wd) {
+  std::ostringstream s;
+  if (WIFSIGNALED(st)) { int sig = WTERMSIG(st); if (sig == SIGALRM) s << "hang (watchdog " << wd << "s)"; else s << "signal " << sig << " (" << strsignal(sig) << ")"; }
+  else if (WEXITSTATUS(st) == 86) s << "escaped exception / std::terminate";
+  else s << "abnormal exit status " << WEXITSTATUS(st) << " (sanitizer report or abort)";
+  return s.str();
+}
+} // namespace detail
+
+// Batches run in up to `jobs` forked children at a time; a batch whose child dies is bisected (synchronously) so that
+// each faulting input is identified and becomes a violation witness.
 inline int RunIsolated(std::istream& in, const Handler& h, Report& rep, const IsoOptions& opt = {}) {
-  std::vector<json> batch; batch.reserve(opt.batch);
-  auto flush = [&]() {
-    if (batch.empty()) return;
-    std::string why;
-    if (!detail::RunChild(batch, 0, batch.size(), h, opt.watchdogSeconds, rep, why)) {
-      // isolate the faulting cases by bisection (a range that runs clean is merged, a failing single case is reported)
-      std::function<void(size_t, size_t)> bisect = [&](size_t from, size_t to) {
-        if (to - from == 1) {
-          ++rep.cases;
-          std::string prop = opt.faultPropertyOf ? opt.faultPropertyOf(batch[from]) : opt.faultProperty;
-          rep.Violation(prop, "fault", batch[from], { {"fault", why} });
-          return;
-        }
-        const size_t mid = from + (to - from) / 2;
-        std::string w;
-        if (!detail::RunChild(batch, from, mid, h, opt.watchdogSeconds, rep, w)) { why = w; bisect(from, mid); }
-        if (!detail::RunChild(batch, mid, to, h, opt.watchdogSeconds, rep, w)) { why = w; bisect(mid, to); }
-      };
-      if (batch.size() == 1) { ++rep.cases; rep.Violation(opt.faultPropertyOf ? opt.faultPropertyOf(batch[0]) : opt.faultProperty, "fault", batch[0], { {"fault", why} }); }
-      else bisect(0, batch.size());
+  const size_t jobs = std::max<size_t>(1, static_cast<size_t>(std::atoi(std::getenv("VERIF_JOBS") ? std::getenv("VERIF_JOBS") : "8")));
+  std::vector<detail::Running> running;
+  auto bisectBatch = [&](const std::vector<json>& batch, std::string why) {
+    std::function<void(size_t, size_t)> bisect = [&](size_t from, size_t to) {
+      if (to - from == 1) {
+        ++rep.cases;
+        std::string prop = opt.faultPropertyOf ? opt.faultPropertyOf(batch[from]) : opt.faultProperty;
+        rep.Violation(prop, "fault", batch[from], { {"fault", why} });
+        return;
+      }
+      const size_t mid = from + (to - from) / 2;
+      std::string w;
+      if (!detail::RunChild(batch, from, mid, h, opt.watchdogSeconds, rep, w)) { why = w; bisect(from, mid); }
+      if (!detail::RunChild(batch, mid, to, h, opt.watchdogSeconds, rep, w)) { why = w; bisect(mid, to); }
+    };
+    bisect(0, batch.size());
+  };
+  auto reapOne = [&]() {
+    int st = 0; pid_t pid;
+    while ((pid = waitpid(-1, &st, 0)) < 0 && errno == EINTR) {}
+    for (size_t i = 0; i < running.size(); ++i) if (running[i].pid == pid) {
+      detail::Running done = std::move(running[i]);
+      running.erase(running.begin() + static_cast<long>(i));
+      bool ok = WIFEXITED(st) && WEXITSTATUS(st) == 0;
+      if (ok) { std::ifstream f(done.path); json j; try { f >> j; rep.Merge(j); } catch (...) { ok = false; } }
+      std::remove(done.path.c_str());
+      if (!ok) bisectBatch(done.batch, detail::DescribeStatus(st, opt.watchdogSeconds));
+      return;
     }
-    batch.clear();
+  };
+  std::vector<json> batch; batch.reserve(opt.batch);
+  auto dispatch = [&]() {
+    if (batch.empty()) return;
+    while (running.size() >= jobs) reapOne();
+    detail::Running r; r.path = detail::TmpPath("rep"); r.batch = std::move(batch);
+    r.pid = detail::SpawnChild(r.batch, h, opt.watchdogSeconds, rep.keepSamples, r.path);
+    running.push_back(std::move(r));
+    batch.clear(); batch.reserve(opt.batch);
   };
   std::string line; json c;
   while (std::getline(in, line)) {
     if (!ParseCaseLine(line, c)) { Other(line); continue; }
     batch.push_back(std::move(c));
-    if (batch.size() >= opt.batch) flush();
+    if (batch.size() >= opt.batch) dispatch();
   }
-  flush();
+  dispatch();
+  while (!running.empty()) reapOne();
   return 0;
 }
 
